@@ -120,6 +120,8 @@ type MatOpts struct {
 	RenderCtx   bool   // C02: every node saves a result rendering the whole context (minus webhook, legacy_extra)
 	ResultNames bool   // routers save results
 	Extra       func(f, n int, d NodeDef, node M) // last-minute decoration
+	Policy      string                            // C19: redaction policy of the trigger environment
+	NoName      bool                              // C19: contact without a name
 	InspectW    *lineWriter                       // C20: write inspection-vs-execution lines here
 	insp        *inspector
 }
@@ -279,8 +281,17 @@ func planText(b *Behaviour) string {
 	return strings.Join(ws, " ")
 }
 
-func matTrigger(b *Behaviour, flow int, ftype string) []byte {
-	t := M{"flow": M{"uuid": flowUUID(flow), "name": fmt.Sprintf("Flow %d", flow)}, "contact": contactJSON(),
+func matTrigger(b *Behaviour, flow int, ftype string) []byte { return matTriggerOpts(b, flow, ftype, nil) }
+
+func matTriggerOpts(b *Behaviour, flow int, ftype string, opts *MatOpts) []byte {
+	contact := contactJSON()
+	msgURN, parentURNs := "tel:+12065551212", []string{"tel:+12065550000"}
+	if curTwin >= 0 {
+		contact = twinContact(opts != nil && opts.NoName)
+		msgURN = twinURNs[curTwin][0]
+		parentURNs = twinURNs[1-curTwin][:2]
+	}
+	t := M{"flow": M{"uuid": flowUUID(flow), "name": fmt.Sprintf("Flow %d", flow)}, "contact": contact,
 		"params": M{"plan": planText(b)}, "triggered_on": "2018-07-06T12:00:00Z"}
 	if ftype == "voice" {
 		t["call"] = M{"channel": M{"uuid": "57f1078f-88aa-46f4-a59a-948a5739c03d", "name": "Android"}, "urn": "tel:+12065551212"}
@@ -293,16 +304,19 @@ func matTrigger(b *Behaviour, flow int, ftype string) []byte {
 		t["type"] = "manual"
 	case "msg":
 		t["type"] = "msg"
-		t["msg"] = M{"uuid": "c8005ee3-4628-4d76-be66-906352cb1935", "urn": "tel:+12065551212", "text": choiceWord(b.Trigch),
+		t["msg"] = M{"uuid": "c8005ee3-4628-4d76-be66-906352cb1935", "urn": msgURN, "text": choiceWord(b.Trigch),
 			"channel": M{"uuid": "57f1078f-88aa-46f4-a59a-948a5739c03d", "name": "Android"}}
 	case "flow_action":
 		t["type"] = "flow_action"
 		t["history"] = M{"parent_uuid": "cdf7ed27-5ad5-4028-b664-880fc7581c77", "ancestors": 1, "ancestors_since_input": 0}
 		t["run_summary"] = M{"uuid": "4213ac47-93fd-48c4-af12-7da8218ef09d", "flow": M{"uuid": "93c554a1-b90d-4892-b029-a2a87dec9b87", "name": "Other"},
-			"contact": M{"uuid": "c59b0033-e748-4240-9d4c-e85eb6800151", "name": "Jim", "created_on": "2018-01-01T12:00:00Z", "urns": []string{"tel:+12065550000"}},
+			"contact": M{"uuid": "c59b0033-e748-4240-9d4c-e85eb6800151", "name": "Jim", "created_on": "2018-01-01T12:00:00Z", "urns": parentURNs},
 			"status": "active", "results": M{"age": M{"name": "Age", "value": "33", "node_uuid": "cd2be8c4-59bc-453c-8777-dec9a80043b8", "created_on": "2000-01-01T00:00:00Z"}}}
 	default:
 		panic("unknown trigger kind " + b.Trig)
+	}
+	if opts != nil && opts.Policy != "" {
+		t["environment"] = M{"date_format": "YYYY-MM-DD", "time_format": "tt:mm", "timezone": "UTC", "redaction_policy": opts.Policy, "default_country": "US"}
 	}
 	return mustJSON(t)
 }
@@ -330,10 +344,14 @@ func matResumeRefresh(c Call, k int, n int) []byte {
 
 func matResume(c Call, k int) []byte {
 	r := M{"resumed_on": fmt.Sprintf("2018-07-06T13:%02d:00Z", k%60)}
+	msgURN := "tel:+12065551212"
+	if curTwin >= 0 {
+		msgURN = twinURNs[curTwin][0]
+	}
 	switch c.Kind {
 	case "msg":
 		r["type"] = "msg"
-		r["msg"] = M{"uuid": fmt.Sprintf("c8005ee3-4628-4d76-be66-9063520000%02d", k%100), "urn": "tel:+12065551212", "text": choiceWord(c.Choice),
+		r["msg"] = M{"uuid": fmt.Sprintf("c8005ee3-4628-4d76-be66-9063520000%02d", k%100), "urn": msgURN, "text": choiceWord(c.Choice),
 			"channel": M{"uuid": "57f1078f-88aa-46f4-a59a-948a5739c03d", "name": "Android"}}
 	case "timeout":
 		r["type"] = "wait_timeout"
